@@ -1,13 +1,11 @@
 (* Relational model of the dataset-wide layers over ids: Merge (layers/merge.py), Filter / CheckIds (filter.py,
    check_ids.py), Join (join.py), GroupBy (group.py), Split (split.py).  The functions on id tables are REGENERATED from the evaluate() bodies
-   (Gen/RelGen.v, the id makers of Join through MiscGen); the comparisons for the case shards below are hand-written. *)
-From Connectome Require Import Values NameSet MiscGen.
-From Connectome Require Export RelBase RelGen.
+   (Gen/MergeGen.v, FilterGen.v, JoinMapGen.v, GroupGen.v, SplitGen.v; the id makers of Join through JoinGen.v); the comparisons for the case shards below are hand-written. *)
+From Connectome Require Import Values NameSet JoinGen.
+From Connectome Require Export RelBase MergeGen FilterGen JoinMapGen GroupGen SplitGen.
 Local Open Scope list_scope.
 
 (* ---------- comparison helpers for the case shards ---------- *)
-Definition sl_eqb := list_eqb String.eqb.
-Definition tab_fun {V} (d : V) (t : list (string * V)) (k : string) : V := match slookup t k with Some v => v | None => d end.
 
 Record merge_case := { mg_sets : list (list string); mg_built : bool; mg_ids : list string;
                        mg_rows : list (string * option nat) }.     (* probed id, observed owner (None: rejected) *)
